@@ -64,5 +64,37 @@ def run(pid, tier, seed):
         gens.append(g)
     import fixed_cases
     gens.append(fixed_cases.rename_fixed())
-    sem.run_value_monitor(chk, pid, "C01", Corpus("c09e", gens), seed, tier)
+    sem.run_value_monitor(chk, pid, "C01", Corpus("c09e", gens, extra_src=MACRO_CASED_SRC, extra_serde_entries=MACRO_CASED_ENTRIES, extra_last_only=True),
+                          seed, tier)
     return chk.finish(min_evaluations=100000, min_distinct=20)
+
+
+# the rule reaches the attribute through a `$case:literal` / `$case:expr` fragment of a macro_rules! macro (serde accepts that)
+MACRO_CASED_SRC = """
+macro_rules! fr_cased_struct {
+    ($name:ident, $case:literal) => {
+        #[derive(Clone, Debug, Serialize, Deserialize, TS)]
+        #[serde(rename_all = $case)]
+        pub struct $name { pub user_name: String, pub crc32c_hash: u32 }
+        impl vsupport::Samples for $name {
+            fn samples(_depth: u32) -> Vec<Self> { vec![$name { user_name: "a".into(), crc32c_hash: 1 }] }
+        }
+    };
+}
+macro_rules! fr_cased_enum {
+    ($name:ident, $case:expr, $fcase:literal) => {
+        #[derive(Clone, Debug, Serialize, Deserialize, TS)]
+        #[serde(rename_all = $case, rename_all_fields = $fcase)]
+        pub enum $name { FirstChoice, SecondChoice { retry_count: u8 } }
+        impl vsupport::Samples for $name {
+            fn samples(_depth: u32) -> Vec<Self> { vec![$name::FirstChoice, $name::SecondChoice { retry_count: 2 }] }
+        }
+    };
+}
+fr_cased_struct!(FrCasedCamel, "camelCase");
+fr_cased_struct!(FrCasedScreamingKebab, "SCREAMING-KEBAB-CASE");
+fr_cased_struct!(FrCasedPascal, "PascalCase");
+fr_cased_enum!(FrCasedEnumA, "snake_case", "PascalCase");
+fr_cased_enum!(FrCasedEnumB, "kebab-case", "UPPERCASE");
+"""
+MACRO_CASED_ENTRIES = [(n, n) for n in ("FrCasedCamel", "FrCasedScreamingKebab", "FrCasedPascal", "FrCasedEnumA", "FrCasedEnumB")]
